@@ -240,10 +240,13 @@ def _scopes():
 
 
 def _c16_extra():
+    from .c16_events import events_extra
+
     t1, s1 = _loop_table()
     t2, s2 = _engine_table()
     t3, s3 = _scopes()
-    return t1 + "\n" + t2 + "\n" + t3, {**s1, **s2, **s3}
+    t4, s4 = events_extra()
+    return t1 + "\n" + t2 + "\n" + t3 + "\n" + t4, {**s1, **s2, **s3, **s4}
 
 
 EXTRA["C16"] = _c16_extra
@@ -286,3 +289,7 @@ register("C16", [
     Kernel("div_guard", E, "Engine.training_loop", ["iter_idx", "k"],
            "(fun _ k => decide (k > 1))", _guard_of_event(".divGrad", ".kGt1"), ret_type="Bool", imports=TRAIN),
 ])
+
+from .c16_events import KERNELS as _EVENT_KERNELS  # noqa: E402
+
+register("C16", _EVENT_KERNELS)
